@@ -22,8 +22,9 @@ import (
 type C06Mix struct{}
 
 var (
-	c06FA = mkFile(seqBytes(12, 11), 4)
-	c06FB = mkFile(seqBytes(9, 12), 4)
+	c06FA    = mkFile(seqBytes(12, 11), 4)
+	c06FB    = mkFile(seqBytes(9, 12), 4)
+	c06FOnce = mkFile(seqBytes(8, 13), 4)
 )
 
 type c06Model struct {
@@ -93,7 +94,7 @@ func (C06Mix) Init(env world.Env) mc.Model {
 
 var c06Templates = []string{
 	"Proof:P1:A", "Proof:P2:A", "Proof:P3:B", "Attest:P2", "Attest:P3", "Report:P1", "Report:P3",
-	"AddViewers", "RemoveEditors", "ResetViewers", "Bid", "AcceptBid", "Buy", "Notify", "BuyStorage", "DeleteA", "NextBlock",
+	"AddViewers", "RemoveEditors", "ResetViewers", "Bid", "AcceptBid", "Buy", "Notify", "BuyStorage", "DeleteA", "PostOnce", "NextBlock",
 }
 
 func (C06Mix) Events(env world.Env, mm mc.Model) []string {
@@ -160,6 +161,10 @@ func (C06Mix) Apply(env world.Env, mm mc.Model, ev string) mc.Step {
 		msg = storagetypes.NewMsgBuyStorage(u2, u2, 90, 3000_000_000_000, "ujkl")
 	case "DeleteA":
 		msg = storagetypes.NewMsgDeleteFile(u1, c06FA.merkle, m.StartA)
+	case "PostOnce": // a one-time-payment file for 100 days: its gauge ends on a calendar date (January -> April)
+		pm := storagetypes.NewMsgPostFile(u2, c06FOnce.merkle, 5_000_000, 0, 0, 2, "{}")
+		pm.Expires = env.Ctx().BlockHeight() + 14400*100
+		msg = pm
 	}
 	if env.Deliver(msg).OK() {
 		st.Outcome = "ok"
